@@ -143,6 +143,20 @@ PROPS = {
         "lean_modules": ["Vipnode.Props.C19"],
         "streams": [{"name": "uri", "component": "uri", "cases": {"quick": 200, "thorough": 3000}}] + pool_streams(80, 800, gen="pool-peers", prefix="connect") + pool_streams(60, 600),
     },
+    "C18": {
+        "level_text": "dropped_iff / dropped_nonstrict (who is un-trusted and disconnected: exactly the pool's invalid peers, plus - strict - the local peers the pool does not list as active under the same host), drop_calls, no_other_peer_dropped, strict_keeps_iff (host compared, ports play no role), shortfall (exactly the shortfall is requested, of the node's kind for a light client, every returned host is connected), failed_keepalive_no_calls are Lean theorems about the pure round function for every local peer set, pool reply and outcome; the real agent.Agent is driven with a recording EthNode and a scripted pool, and must make the same calls in the same order.",
+        "level_note": "Theorems are about Model/Agent.lean `round`; enode URIs enter the model as what ethnode.ParseNodeURI makes of them (id, remote host, unparseable), observed by the harness. Trusted: net/url, the recording EthNode/scripted pool of the harness.",
+        "lean_modules": ["Vipnode.Props.C18"],
+        "streams": [{"name": "agent-rounds", "component": "agent", "cases": {"quick": 300, "thorough": 5000}}],
+        "monitor": monitors.c18_agent,
+    },
+    "C20": {
+        "level_text": "at_most_one_loop (after every sequence and interleaving of start/stop/wait/tick events, including racing starts), second_start_refused, running_refuses_start, failed_start_leaves_nothing, stop_ends_loop_wait_returns, failed_keepalive_ends_loop, one_keepalive_per_tick are Lean theorems about the life-cycle state machine, by an invariant preserved by every atomic step; accepted_below_expiry / expiry_refused are re-proved on every run on the --update-interval values probed on the built binary. The real agent.Agent is driven through generated life-cycle histories (scripted pool failing at connect / first update / a later keep-alive, two concurrent Starts, keep-alives counted over a window of intervals).",
+        "level_note": "Theorems are about Model/Agent.lean `lifeStep` (atomic steps: the mutex-protected check-and-set of `started`, loop start, tick, stop, wait). Partial: wall-clock cadence is runtime behaviour - the model says one keep-alive per tick, the harness checks that the number of keep-alives in a window of 10 intervals is that of one loop (two loops give twice as many). The interval clause is a finite probe of the binary (grid around the 5 s and 120 s bounds), re-proved by `decide`.",
+        "lean_modules": ["Vipnode.Props.C20"],
+        "streams": [{"name": "agent-life", "component": "agentlife", "cases": {"quick": 16, "thorough": 150}, "no_shrink": True, "race": True}],
+        "race": True,
+    },
     "C12": {
         "level_text": "Contract clauses (unregistered = error, balances follow the wallet, trial migrated exactly once and shared, active-host query contract, statistics = true counts, ledger effect of every operation, well-formedness of every reachable store) are Lean theorems about the executable reference model of the documented store contract, for all states and arguments; both drivers are compared with that model op by op on generated histories, so a driver that deviates from the other deviates from the model.",
         "level_note": "Theorems are about Model/Store.lean; its tie to memory.go/badger.go is differential (sampled). Trusted: badger transaction atomicity, gob round-trip, the harness's clock bracketing.",
